@@ -3,10 +3,11 @@ C09 helper lemmas, part 2: what the literal fold of `ExtData::threshold` compute
 
 The Rust code sorts the children by `sat - dissat` of one field (children lacking one of the two
 figures first), walks the vector from the back and takes the SATISFACTION figure of the first
-`k + 1` children (`i <= k`) and the dissatisfaction figure of the rest.  `thresh_field_bound`:
-for any choice of at most `k` children to satisfy (the others dissatisfied), the sum of the
-chosen figures is at most that result — PROVIDED none of the first `k + 1` differences is
-negative (`hcut`).  Without that proviso the statement is false (see `Thm/C09.lean`).
+`k` children (`i < k`) and the dissatisfaction figure of the rest.  `thresh_field_bound`: for any
+choice of exactly `min k n` children to satisfy (the others dissatisfied), the sum of the chosen
+figures is at most that result (differences may be negative: an exchange argument with an
+integer threshold).  `thresh_fold_defined`: the fold is defined whenever such a choice exists
+and every child has a dissatisfaction figure.
 -/
 import MsVerif.Lemmas.BoundsBasic
 
@@ -125,8 +126,8 @@ def Valid (z : ZE) : Prop := if z.2 then z.1.1.isSome = true else z.1.2.isSome =
 
 theorem threshFold_some (k : Nat) : ∀ (l : List SD) (i acc total : Nat),
     threshFold k proj (fun a b => a + b) i acc l = some total →
-    (∀ x ∈ l.take (k + 1 - i), x.1.isSome = true) ∧ (∀ x ∈ l.drop (k + 1 - i), x.2.isSome = true) ∧
-    total = acc + ((l.take (k + 1 - i)).map (satV proj)).sum + ((l.drop (k + 1 - i)).map (disV proj)).sum := by
+    (∀ x ∈ l.take (k - i), x.1.isSome = true) ∧ (∀ x ∈ l.drop (k - i), x.2.isSome = true) ∧
+    total = acc + ((l.take (k - i)).map (satV proj)).sum + ((l.drop (k - i)).map (disV proj)).sum := by
   intro l
   induction l with
   | nil => intro i acc total h; simp [threshFold] at h; simp [h]
@@ -136,7 +137,7 @@ theorem threshFold_some (k : Nat) : ∀ (l : List SD) (i acc total : Nat),
     simp only [threshFold] at h
     split at h
     · rename_i hik
-      have hk : k + 1 - i = (k + 1 - (i + 1)) + 1 := by omega
+      have hk : k - i = (k - (i + 1)) + 1 := by omega
       cases sat with
       | none => simp at h
       | some s =>
@@ -150,8 +151,8 @@ theorem threshFold_some (k : Nat) : ∀ (l : List SD) (i acc total : Nat),
           · exact h1 y hy
         · simp only [satV, Option.getD_some]; omega
     · rename_i hik
-      have hk : k + 1 - i = 0 := by omega
-      have hk' : k + 1 - (i + 1) = 0 := by omega
+      have hk : k - i = 0 := by omega
+      have hk' : k - (i + 1) = 0 := by omega
       cases dissat with
       | none => simp at h
       | some d =>
@@ -166,9 +167,50 @@ theorem threshFold_some (k : Nat) : ∀ (l : List SD) (i acc total : Nat),
           · exact h2 y hy
         · simp only [disV, Option.getD_some]; omega
 
-theorem sum_val_le_sat (t : Nat) : ∀ l : List ZE,
-    (∀ z ∈ l, z.2 = false → disV proj z.1 + t ≤ satV proj z.1) →
-    (l.map (val proj)).sum + t * l.countP (fun z => !z.2) ≤ (l.map (fun z => satV proj z.1)).sum := by
+/-- the fold is defined as soon as the first `k` entries have a satisfaction figure and the rest
+a dissatisfaction figure (any combining function) -/
+theorem threshFold_isSome (cmb : Nat → Nat → Nat) (k : Nat) : ∀ (l : List SD) (i acc : Nat),
+    (∀ x ∈ l.take (k - i), x.1.isSome = true) → (∀ x ∈ l.drop (k - i), x.2.isSome = true) →
+    (threshFold k proj cmb i acc l).isSome = true := by
+  intro l
+  induction l with
+  | nil => intro i acc _ _; rfl
+  | cons x rest ih =>
+    intro i acc h1 h2
+    obtain ⟨sat, dissat⟩ := x
+    simp only [threshFold]
+    split
+    · rename_i hik
+      have hk : k - i = (k - (i + 1)) + 1 := by omega
+      rw [hk] at h1 h2
+      simp only [List.take_succ_cons, List.drop_succ_cons, List.mem_cons] at h1 h2
+      have hs := h1 (sat, dissat) (.inl rfl)
+      cases sat with
+      | none => simp at hs
+      | some s => exact ih _ _ (fun y hy => h1 y (.inr hy)) h2
+    · rename_i hik
+      have hk : k - i = 0 := by omega
+      have hk' : k - (i + 1) = 0 := by omega
+      rw [hk] at h2
+      simp only [List.drop_zero, List.mem_cons] at h2
+      have hd := h2 (sat, dissat) (.inl rfl)
+      cases dissat with
+      | none => simp at hd
+      | some d =>
+        apply ih
+        · rw [hk']; simp
+        · rw [hk']; simpa using fun y hy => h2 y (.inr hy)
+
+theorem natCast_sum {α : Type} (f : α → Nat) (l : List α) :
+    (((l.map f).sum : Nat) : Int) = (l.map (fun x => (f x : Int))).sum := by
+  induction l with
+  | nil => rfl
+  | cons a as ih => simp only [List.map_cons, List.sum_cons, Int.natCast_add, ih]
+
+theorem sum_val_le_sat (t : Int) : ∀ l : List ZE,
+    (∀ z ∈ l, z.2 = false → (disV proj z.1 : Int) + t ≤ satV proj z.1) →
+    (l.map (fun z => (val proj z : Int))).sum + t * (l.countP (fun z => !z.2) : Nat)
+      ≤ (l.map (fun z => (satV proj z.1 : Int))).sum := by
   intro l
   induction l with
   | nil => intro _; simp
@@ -179,14 +221,17 @@ theorem sum_val_le_sat (t : Nat) : ∀ l : List ZE,
     simp only [List.map_cons, List.sum_cons, List.countP_cons]
     cases hb : z.2
     · have := hz hb
-      simp only [val, hb, Bool.not_false, if_true, Bool.false_eq_true, if_false]
-      rw [Nat.mul_add, Nat.mul_one]; omega
-    · simp only [val, hb, Bool.not_true, if_true, Bool.false_eq_true, if_false, Nat.add_zero]
+      have hv : val proj z = disV proj z.1 := by simp [val, hb]
+      simp only [hv, Bool.not_false, if_true, Int.natCast_add, Int.natCast_one, Int.mul_add, Int.mul_one]
+      omega
+    · have hv : val proj z = satV proj z.1 := by simp [val, hb]
+      simp only [hv, Bool.not_true, Bool.false_eq_true, if_false, Nat.add_zero]
       omega
 
-theorem sum_val_le_dis (t : Nat) : ∀ l : List ZE,
-    (∀ z ∈ l, z.2 = true → satV proj z.1 ≤ disV proj z.1 + t) →
-    (l.map (val proj)).sum ≤ (l.map (fun z => disV proj z.1)).sum + t * l.countP (fun z => z.2) := by
+theorem sum_val_le_dis (t : Int) : ∀ l : List ZE,
+    (∀ z ∈ l, z.2 = true → (satV proj z.1 : Int) ≤ disV proj z.1 + t) →
+    (l.map (fun z => (val proj z : Int))).sum
+      ≤ (l.map (fun z => (disV proj z.1 : Int))).sum + t * (l.countP (fun z => z.2) : Nat) := by
   intro l
   induction l with
   | nil => intro _; simp
@@ -196,26 +241,28 @@ theorem sum_val_le_dis (t : Nat) : ∀ l : List ZE,
     have hz := h z (List.mem_cons_self ..)
     simp only [List.map_cons, List.sum_cons, List.countP_cons]
     cases hb : z.2
-    · simp only [val, hb, Bool.false_eq_true, if_false, Nat.add_zero]; omega
+    · have hv : val proj z = disV proj z.1 := by simp [val, hb]
+      simp only [hv, Bool.false_eq_true, if_false, Nat.add_zero]; omega
     · have := hz hb
-      simp only [val, hb, if_true]
-      rw [Nat.mul_add, Nat.mul_one]; omega
+      have hv : val proj z = satV proj z.1 := by simp [val, hb]
+      simp only [hv, if_true, Int.natCast_add, Int.natCast_one, Int.mul_add, Int.mul_one]
+      omega
 
-theorem exists_min {α : Type} (g : α → Nat) : ∀ l : List α, l ≠ [] → ∃ x ∈ l, ∀ y ∈ l, g x ≤ g y := by
+theorem exists_min {α : Type} (g : α → Int) : ∀ l : List α, l ≠ [] → ∃ x ∈ l, ∀ y ∈ l, g x ≤ g y := by
   intro l
   induction l with
   | nil => intro h; exact absurd rfl h
   | cons a as ih =>
     intro _
     by_cases has : as = []
-    · subst has; exact ⟨a, List.mem_cons_self .., fun y hy => by simp at hy; subst hy; exact Nat.le_refl _⟩
+    · subst has; exact ⟨a, List.mem_cons_self .., fun y hy => by simp at hy; subst hy; exact Int.le_refl _⟩
     · obtain ⟨m, hm, hmin⟩ := ih has
       by_cases h : g a ≤ g m
       · refine ⟨a, List.mem_cons_self .., ?_⟩
         intro y hy
         rcases List.mem_cons.1 hy with rfl | hy
-        · exact Nat.le_refl _
-        · exact Nat.le_trans h (hmin y hy)
+        · exact Int.le_refl _
+        · exact Int.le_trans h (hmin y hy)
       · refine ⟨m, List.mem_cons_of_mem _ hm, ?_⟩
         intro y hy
         rcases List.mem_cons.1 hy with rfl | hy
@@ -227,32 +274,28 @@ theorem sortKey_full {x : SD} (h1 : x.1.isSome = true) (h2 : x.2.isSome = true) 
   obtain ⟨a, b⟩ := x
   cases a <;> cases b <;> simp_all [sortKey, satV, disV]
 
-/-- a threshold `t` separating the differences of the dissatisfied children among the first
-`k+1` from those of the satisfied children among the rest -/
+/-- an integer threshold `t` separating the differences of the dissatisfied children among the
+first `k` from those of the satisfied children among the rest -/
 theorem exists_threshold (hd tl : List ZE)
     (hs : ∀ x ∈ hd, x.1.1.isSome = true) (hvh : ∀ x ∈ hd, Valid x)
     (hvt : ∀ x ∈ tl, Valid x) (htl : ∀ y ∈ tl, y.1.2.isSome = true)
-    (hcut : ∀ x ∈ hd, x.1.1.isSome = true → x.1.2.isSome = true → disV proj x.1 ≤ satV proj x.1)
     (hord : ∀ x ∈ hd, ∀ y ∈ tl, keyLe (sortKey proj y.1) (sortKey proj x.1) = true) :
-    ∃ t, (∀ z ∈ hd, z.2 = false → disV proj z.1 + t ≤ satV proj z.1) ∧
-      (hd.countP (fun z => !z.2) = 0 ∨ ∀ z ∈ tl, z.2 = true → satV proj z.1 ≤ disV proj z.1 + t) := by
+    ∃ t : Int, (∀ z ∈ hd, z.2 = false → (disV proj z.1 : Int) + t ≤ satV proj z.1) ∧
+      (hd.countP (fun z => !z.2) = 0 ∨ ∀ z ∈ tl, z.2 = true → (satV proj z.1 : Int) ≤ disV proj z.1 + t) := by
   by_cases hF : hd.filter (fun z => !z.2) = []
   · refine ⟨0, ?_, .inl ?_⟩
     · intro z hz hb
       have : z ∈ hd.filter (fun z => !z.2) := List.mem_filter.2 ⟨hz, by simp [hb]⟩
       rw [hF] at this; exact absurd this List.not_mem_nil
     · rw [List.countP_eq_length_filter, hF]; rfl
-  · obtain ⟨m, hm, hmin⟩ := exists_min (fun z : ZE => satV proj z.1 - disV proj z.1) _ hF
+  · obtain ⟨m, hm, hmin⟩ := exists_min (fun z : ZE => (satV proj z.1 : Int) - disV proj z.1) _ hF
     obtain ⟨hmhd, hmb⟩ := List.mem_filter.1 hm
     have hmb' : m.2 = false := by simpa using hmb
     have hm2 : m.1.2.isSome = true := by have := hvh m hmhd; simpa [Valid, hmb'] using this
-    have hmle := hcut m hmhd (hs m hmhd) hm2
-    refine ⟨satV proj m.1 - disV proj m.1, ?_, .inr ?_⟩
+    refine ⟨(satV proj m.1 : Int) - disV proj m.1, ?_, .inr ?_⟩
     · intro z hz hb
       have hzf : z ∈ hd.filter (fun z => !z.2) := List.mem_filter.2 ⟨hz, by simp [hb]⟩
       have h1 := hmin z hzf
-      have hz2 : z.1.2.isSome = true := by have := hvh z hz; simpa [Valid, hb] using this
-      have := hcut z hz (hs z hz) hz2
       omega
     · intro y hy hb
       have hy1 : y.1.1.isSome = true := by have := hvt y hy; simpa [Valid, hb] using this
@@ -262,72 +305,151 @@ theorem exists_threshold (hd tl : List ZE)
       simp only [keyLe, decide_eq_true_eq, Int.ofNat_eq_natCast] at hk
       omega
 
+/-- the sorted vector (largest difference first), carrying the choices along -/
+def sortedRev (z : List ZE) : List ZE := (sortZ proj z).reverse
+
+theorem sortedRev_fst (z : List ZE) :
+    (sortedRev proj z).map Prod.fst = (sortSD proj (z.map Prod.fst)).reverse := by
+  simp only [sortedRev, List.map_reverse, sortZ_map_fst]
+
+theorem sortedRev_perm (z : List ZE) : (sortedRev proj z).Perm z :=
+  (List.reverse_perm _).trans (sortZ_perm proj z)
+
+theorem sortedRev_desc (z : List ZE) :
+    (sortedRev proj z).Pairwise (fun a b => keyLe (sortKey proj b.1) (sortKey proj a.1) = true) := by
+  simp only [sortedRev]; exact List.pairwise_reverse.2 (sortZ_asc proj z)
+
 /-- THE bound for one field of `ExtData::threshold` -/
 theorem thresh_field_bound (k : Nat) (z : List ZE) (total : Nat)
     (hfold : threshFold k proj (fun a b => a + b) 0 0 (sortSD proj (z.map Prod.fst)).reverse = some total)
-    (hvalid : ∀ x ∈ z, Valid x) (hcount : z.countP (fun x => x.2) ≤ k)
-    (hcut : ∀ x ∈ ((sortSD proj (z.map Prod.fst)).reverse).take (k + 1),
-      x.1.isSome = true → x.2.isSome = true → disV proj x ≤ satV proj x) :
+    (hvalid : ∀ x ∈ z, Valid x) (hcount : z.countP (fun x => x.2) = min k z.length) :
     (z.map (val proj)).sum ≤ total := by
-  -- the sorted vector, carrying the choices along
-  let r := (sortZ proj z).reverse
-  have hrfst : r.map Prod.fst = (sortSD proj (z.map Prod.fst)).reverse := by
-    simp only [r, List.map_reverse, sortZ_map_fst]
-  have hperm : r.Perm z := (List.reverse_perm _).trans (sortZ_perm proj z)
-  have hdesc : r.Pairwise (fun a b => keyLe (sortKey proj b.1) (sortKey proj a.1) = true) := by
-    simp only [r]; exact List.pairwise_reverse.2 (sortZ_asc proj z)
-  rw [← hrfst] at hfold hcut
+  have hrfst := sortedRev_fst proj z
+  have hperm := sortedRev_perm proj z
+  have hdesc := sortedRev_desc proj z
+  generalize sortedRev proj z = r at hrfst hperm hdesc
+  rw [← hrfst] at hfold
   obtain ⟨f1, f2, f3⟩ := threshFold_some proj k _ _ _ _ hfold
   simp only [Nat.sub_zero, Nat.zero_add] at f1 f2 f3
-  -- split at k+1
-  have hsplit : r.take (k + 1) ++ r.drop (k + 1) = r := List.take_append_drop _ _
-  have hs : ∀ x ∈ r.take (k + 1), x.1.1.isSome = true := by
+  have hsplit : r.take k ++ r.drop k = r := List.take_append_drop _ _
+  have hs : ∀ x ∈ r.take k, x.1.1.isSome = true := by
     intro x hx; apply f1; rw [← List.map_take]; exact List.mem_map_of_mem hx
-  have htl : ∀ x ∈ r.drop (k + 1), x.1.2.isSome = true := by
+  have htl : ∀ x ∈ r.drop k, x.1.2.isSome = true := by
     intro x hx; apply f2; rw [← List.map_drop]; exact List.mem_map_of_mem hx
   have hvr : ∀ x ∈ r, Valid x := fun x hx => hvalid x (hperm.mem_iff.1 hx)
-  have hcut' : ∀ x ∈ r.take (k + 1), x.1.1.isSome = true → x.1.2.isSome = true →
-      disV proj x.1 ≤ satV proj x.1 := by
-    intro x hx; apply hcut; rw [← List.map_take]; exact List.mem_map_of_mem hx
-  have hord : ∀ x ∈ r.take (k + 1), ∀ y ∈ r.drop (k + 1),
+  have hord : ∀ x ∈ r.take k, ∀ y ∈ r.drop k,
       keyLe (sortKey proj y.1) (sortKey proj x.1) = true := by
     rw [← hsplit] at hdesc
     exact (List.pairwise_append.1 hdesc).2.2
-  obtain ⟨t, ht1, ht2⟩ := exists_threshold proj (r.take (k + 1)) (r.drop (k + 1)) hs
+  obtain ⟨t, ht1, ht2⟩ := exists_threshold proj (r.take k) (r.drop k) hs
     (fun x hx => hvr x (List.mem_of_mem_take hx)) (fun x hx => hvr x (List.mem_of_mem_drop hx))
-    htl hcut' hord
-  -- counting
-  have hcnt : (r.take (k + 1)).countP (fun x => x.2) + (r.drop (k + 1)).countP (fun x => x.2) ≤ k := by
-    rw [← List.countP_append, hsplit, hperm.countP_eq]; exact hcount
-  have hlen := List.length_eq_countP_add_countP (fun x : ZE => x.2) (l := r.take (k + 1))
-  have hslack : (r.drop (k + 1)).countP (fun x => x.2) ≤ (r.take (k + 1)).countP (fun x => !x.2) := by
-    by_cases hl : r.length ≤ k + 1
-    · rw [List.drop_of_length_le hl]; simp
-    · have : (r.take (k + 1)).length = k + 1 := by rw [List.length_take]; omega
-      have e : (r.take (k + 1)).countP (fun x => !x.2) = (r.take (k + 1)).countP (fun a => ¬(a.2 = true)) := by
-        congr 1; funext a; cases a.2 <;> simp
-      rw [e]; omega
-  -- the two halves
-  have hA := sum_val_le_sat proj t (r.take (k + 1)) ht1
-  have hB : ((r.drop (k + 1)).map (val proj)).sum
-      ≤ ((r.drop (k + 1)).map (fun z => disV proj z.1)).sum + t * (r.drop (k + 1)).countP (fun z => z.2) := by
+    htl hord
+  -- counting: as many dissatisfied among the first k as satisfied among the rest
+  have hcnt : (r.take k).countP (fun x => x.2) + (r.drop k).countP (fun x => x.2) = min k r.length := by
+    rw [← List.countP_append, hsplit, hperm.countP_eq, hperm.length_eq]; exact hcount
+  have hlen := List.length_eq_countP_add_countP (fun x : ZE => x.2) (l := r.take k)
+  have e : (r.take k).countP (fun x => !x.2) = (r.take k).countP (fun a => ¬(a.2 = true)) := by
+    congr 1; funext a; cases a.2 <;> simp
+  have hslack : (r.take k).countP (fun x => !x.2) = (r.drop k).countP (fun x => x.2) := by
+    have hl : (r.take k).length = min k r.length := List.length_take
+    have hd : (r.drop k).countP (fun x => x.2) ≤ (r.drop k).length := List.countP_le_length
+    have : (r.drop k).length = r.length - k := List.length_drop
+    rw [e]; omega
+  have hA := sum_val_le_sat proj t (r.take k) ht1
+  have hB : ((r.drop k).map (fun z => (val proj z : Int))).sum
+      ≤ ((r.drop k).map (fun z => (disV proj z.1 : Int))).sum + t * ((r.drop k).countP (fun z => z.2) : Nat) := by
     rcases ht2 with h0 | h
-    · have hz : (r.drop (k + 1)).countP (fun x => x.2) = 0 := by omega
+    · have hz : (r.drop k).countP (fun x => x.2) = 0 := by omega
       apply sum_val_le_dis
       intro y hy hb
       have := List.countP_eq_zero.1 hz y hy
       simp [hb] at this
     · exact sum_val_le_dis proj t _ h
-  have hmul := Nat.mul_le_mul_left t hslack
+  rw [hslack] at hA
   have hsum : (z.map (val proj)).sum
-      = ((r.take (k + 1)).map (val proj)).sum + ((r.drop (k + 1)).map (val proj)).sum := by
+      = ((r.take k).map (val proj)).sum + ((r.drop k).map (val proj)).sum := by
     rw [← List.sum_append, ← List.map_append, hsplit]
     exact ((hperm.map (val proj)).sum_nat).symm
-  have e1 : ((r.map Prod.fst).take (k + 1)).map (satV proj) = (r.take (k + 1)).map (fun z => satV proj z.1) := by
+  have e1 : ((r.map Prod.fst).take k).map (satV proj) = (r.take k).map (fun z => satV proj z.1) := by
     rw [← List.map_take, List.map_map]; rfl
-  have e2 : ((r.map Prod.fst).drop (k + 1)).map (disV proj) = (r.drop (k + 1)).map (fun z => disV proj z.1) := by
+  have e2 : ((r.map Prod.fst).drop k).map (disV proj) = (r.drop k).map (fun z => disV proj z.1) := by
     rw [← List.map_drop, List.map_map]; rfl
   rw [e1, e2] at f3
+  have c1 := natCast_sum (val proj) (r.take k)
+  have c2 := natCast_sum (val proj) (r.drop k)
+  have c3 := natCast_sum (fun z : ZE => satV proj z.1) (r.take k)
+  have c4 := natCast_sum (fun z : ZE => disV proj z.1) (r.drop k)
   omega
+
+/-- the fold is DEFINED whenever a valid choice of `min k n` satisfied children exists and every
+child has a dissatisfaction figure -/
+theorem thresh_fold_defined (cmb : Nat → Nat → Nat) (k : Nat) (z : List ZE)
+    (hvalid : ∀ x ∈ z, Valid x) (hcount : z.countP (fun x => x.2) = min k z.length)
+    (hdis : ∀ x ∈ z, x.1.2.isSome = true) :
+    (threshFold k proj cmb 0 0 (sortSD proj (z.map Prod.fst)).reverse).isSome = true := by
+  have hrfst := sortedRev_fst proj z
+  have hperm := sortedRev_perm proj z
+  have hdesc := sortedRev_desc proj z
+  generalize sortedRev proj z = r at hrfst hperm hdesc
+  rw [← hrfst]
+  apply threshFold_isSome
+  · simp only [Nat.sub_zero]
+    intro x hx
+    rw [← List.map_take] at hx
+    obtain ⟨y, hy, rfl⟩ := List.mem_map.1 hx
+    -- y is among the first k; suppose it has no satisfaction figure
+    cases hsat : y.1.1.isSome with
+    | true => rfl
+    | false =>
+      exfalso
+      obtain ⟨a, b, hab⟩ := List.append_of_mem hy
+      have hr : r = a ++ y :: (b ++ r.drop k) :=
+        calc r = r.take k ++ r.drop k := (List.take_append_drop k r).symm
+          _ = a ++ y :: (b ++ r.drop k) := by rw [hab]; simp
+      have hn : y.1.1 = none := by
+        cases h : y.1.1 with
+        | none => rfl
+        | some v => rw [h] at hsat; simp at hsat
+      have hky : sortKey proj y.1 = none := by simp [sortKey, hn]
+      -- everything after y has no satisfaction figure either, hence is dissatisfied
+      have hafter : ∀ w ∈ b ++ r.drop k, w.2 = false := by
+        intro w hw
+        rw [hr] at hdesc
+        have h1 := (List.pairwise_append.1 hdesc).2.1
+        have h2 := (List.pairwise_cons.1 h1).1 w hw
+        rw [hky] at h2
+        have hkw : sortKey proj w.1 = none := by
+          cases hq : sortKey proj w.1 with
+          | none => rfl
+          | some v => rw [hq] at h2; simp [keyLe] at h2
+        have hwr : w ∈ r := by rw [hr]; simp; rcases List.mem_append.1 hw with h | h <;> simp [h]
+        have hwd := hdis w (hperm.mem_iff.1 hwr)
+        have hws : w.1.1.isSome = false := by
+          cases hs : w.1.1.isSome with
+          | false => rfl
+          | true => rw [sortKey_full proj hs hwd] at hkw; cases hkw
+        have hv := hvalid w (hperm.mem_iff.1 hwr)
+        cases hb : w.2 with
+        | false => rfl
+        | true => simp [Valid, hb, hws] at hv
+      have hyf : y.2 = false := by
+        have hv := hvalid y (hperm.mem_iff.1 (List.mem_of_mem_take hy))
+        cases hb : y.2 with
+        | false => rfl
+        | true => simp [Valid, hb, hsat] at hv
+      have hc0 : (b ++ r.drop k).countP (fun x => x.2) = 0 :=
+        List.countP_eq_zero.2 (fun w hw => by simp [hafter w hw])
+      have hcnt : r.countP (fun x => x.2) = a.countP (fun x => x.2) := by
+        rw [hr, List.countP_append, List.countP_cons, hc0, hyf]; simp
+      have hle : a.countP (fun x => x.2) ≤ a.length := List.countP_le_length
+      have hlen : (r.take k).length = a.length + 1 + b.length := by rw [hab]; simp; omega
+      have hl2 : (r.take k).length = min k r.length := List.length_take
+      rw [← hperm.countP_eq, ← hperm.length_eq] at hcount
+      omega
+  · intro x hx
+    simp only [Nat.sub_zero] at hx
+    rw [← List.map_drop] at hx
+    obtain ⟨y, hy, rfl⟩ := List.mem_map.1 hx
+    exact hdis y (hperm.mem_iff.1 (List.mem_of_mem_drop hy))
 
 end MsVerif.C09
